@@ -100,7 +100,7 @@ func c10Scenarios() []c10Scenario {
 	query := func(o env.Opts) (*env.Env, func() *env.Call) {
 		e := mk(o)
 		rng := fixedRng()
-		u := randUser(rng, "UMKqx", false)
+		u := randUser(rng, "U_MKqx", false)
 		e.W.AddUser(u)
 		q := conformantQuery(rng, stdSP(0), u.Username)
 		body := q.XML(rng)
@@ -179,7 +179,7 @@ func c10Judge(r *core.Run, wl string, idx int, class string, sc *c10Scenario, ca
 	if d.Success() {
 		viol("success_after_fault", "Success response although a storage operation failed")
 	}
-	if strings.Contains(d.FullText(), "UMK") {
+	if strings.Contains(d.FullText(), "U_MK") {
 		viol("user_data_after_fault", "reply contains user attributes although a storage operation failed")
 	}
 	if strings.Contains(string(d.Body), "EntityDescriptor") && strings.Contains(string(d.Body), "SignatureValue") {
